@@ -5,10 +5,12 @@ C18 - sandboxed capabilities stay disabled.
 
 * `flags_monotone`, `spawn_inherits`, `thread_keeps_parent_flags`: no transition of the flag-word model clears a bit;
   a new thread starts with (a superset of) its parent's word.
-* `checker_sound`: for EVERY graph and certificate accepted by `certOK`, every execution from an entry point that
-  reaches an OS-level call `c` does so with a flag word in which no requirement group of `c` is completely disabled;
-  `checker_sound_entry`: …in particular if the group was disabled when the core function was entered, `c` is not
-  reached (the path ended in the panic of a `janet_sandbox_assert` before).
+* `interp_sound`: for EVERY graph and certificate accepted by `certOK`: the interpreter may run any sequence of entry-point
+  calls and `(sandbox …)` calls under one thread-global flag word, entry points re-entering the interpreter at their
+  indirect calls to any depth (`Ex`, `Ob` in Model.lean); every OS-level call `c` that is reached is reached with a flag word
+  in which no requirement group of `c` - for the open(2) access mode in force - is completely disabled.
+  `checker_sound` is the special case of one entry-point call; `checker_sound_entry`: if the group was disabled when the run
+  started, `c` is not reached (the path ended in the panic of a `janet_sandbox_assert` before).
 * `gen_certOK` etc.: the per-run obligations on the graph regenerated from the current tree, by kernel evaluation.
 -/
 namespace JanetModel.Props.C18
@@ -171,7 +173,7 @@ theorem thread_keeps_parent_flags (s : Sys) (tid fl : Nat) (h : s[tid]? = some f
 /-! ### soundness of the certificate checker -/
 
 section sound
-variable {need : String → String → List Nat} {G : Graph} {C : Cert}
+variable {need : String → String → Nat → List Nat} {G : Graph} {C : Cert}
 
 theorem nodeOK_of_lt (h : certOK need G C = true) {n : Nat} (hn : n < G.size) : nodeOK need G C n = true := by
   unfold certOK at h
@@ -180,7 +182,24 @@ theorem nodeOK_of_lt (h : certOK need G C = true) {n : Nat} (hn : n < G.size) : 
   rw [List.all_eq_true] at this
   exact this n (List.mem_range.mpr hn)
 
-/-- the four conjuncts of `nodeOK` -/
+theorem cover_spec {K' : List Case} {m : Nat} {p : Nat → Bool} (h : cover K' m p = true) :
+    ∃ c' ∈ K', c'.1 = m ∧ ∀ g' ∈ c'.2, p g' = true := by
+  unfold cover at h
+  rw [List.any_eq_true] at h
+  obtain ⟨c', hc, hp⟩ := h
+  rw [Bool.and_eq_true] at hp
+  refine ⟨c', hc, beq_iff_eq.mp hp.1, ?_⟩
+  have := hp.2
+  rw [List.all_eq_true] at this
+  exact this
+
+/-- a covering case whose groups all follow from groups that hold -/
+theorem inv_of_cover {K' : List Case} {m F : Nat} {p : Nat → Bool} (h : cover K' m p = true)
+    (hp : ∀ g', p g' = true → subMask g' F = false) : inv K' m F := by
+  obtain ⟨c', hc, hm, hall⟩ := cover_spec h
+  exact ⟨c', hc, hm, fun g' hg' => hp g' (hall g' hg')⟩
+
+/-- the conjuncts of `nodeOK` -/
 theorem nodeOK_parts {n : Nat} (h : nodeOK need G C n = true) :
     ((G.node n).succs.all (fun s => (G.node s).fn == (G.node n).fn) = true) ∧
     ((!C.isPure (G.node n).fn || (match (G.node n).op with
@@ -190,196 +209,263 @@ theorem nodeOK_parts {n : Nat} (h : nodeOK need G C n = true) :
     ((match (G.node n).op with
        | .call g => (G.node (G.fnEntry g)).fn == g
        | _ => true) = true) ∧
-    (((C.k n).contains 0 ||
-      (match (G.node n).op with
-       | .nop => (G.node n).succs.all (fun s => impAll (C.k s) (C.k n))
-       | .libc fn nm => (G.node n).succs.all (fun s => impAll (C.k s) (C.k n)) && (need fn nm).all (fun r => imp r (C.k n))
-       | .assert m => (G.node n).succs.all (fun s => (C.k s).all (fun g' => g' &&& m != 0 || imp g' (C.k n)))
-       | .havoc => (G.node n).succs.all (fun s => (C.k s).isEmpty)
-       | .call g => impAll (C.fpre g) (C.k n) && impAll (C.k (G.fnEntry g)) (C.fpre g) &&
-           (G.node n).succs.all (fun s => (C.k s).all (fun g' => (C.isPure g && imp g' (C.k n)) || imp g' (C.fpost g)))
-       | .ret => impAll (C.fpost (G.node n).fn) (C.k n))) = true) := by
+    (∀ c ∈ C.k n, caseOK need G C (G.node n) c.1 c.2 = true) := by
   unfold nodeOK at h
   simp only [Bool.and_eq_true] at h
-  exact ⟨h.1.1.1, h.1.1.2, h.1.2, h.2⟩
+  refine ⟨h.1.1.1, h.1.1.2, h.1.2, ?_⟩
+  have := h.2
+  rw [List.all_eq_true] at this
+  exact this
 
 theorem succ_fn {n s : Nat} (h : nodeOK need G C n = true) (hs : s ∈ (G.node n).succs) : (G.node s).fn = (G.node n).fn := by
   have := (nodeOK_parts h).1
   rw [List.all_eq_true] at this
   exact beq_iff_eq.mp (this s hs)
 
-/-- Invariant carried along an activation. -/
-theorem reach_inv (h : certOK need G C = true) {n F n' F' : Nat} (hr : Reach G n F n' F') :
-    holds (C.k n) F →
-    holds (C.k n') F' ∧ (G.node n').fn = (G.node n).fn ∧ (C.isPure (G.node n).fn = true → F' = F) := by
+/-- Invariant carried along an activation (nothing is claimed about interpreter runs: they only matter through `Ob`). -/
+theorem ex_inv (h : certOK need G C = true) {b : Bool} {n F md n' F' md' : Nat} (hr : Ex G b n F md n' F' md') :
+    b = false → inv (C.k n) md F →
+    inv (C.k n') md' F' ∧ (G.node n').fn = (G.node n).fn ∧ (C.isPure (G.node n).fn = true → F' = F) := by
   induction hr with
-  | refl n F => intro hk; exact ⟨hk, rfl, fun _ => rfl⟩
-  | @nop n F s n' F' hlt hop hs _ ih =>
-    intro hk
+  | refl n F md => intro _ hk; exact ⟨hk, rfl, fun _ => rfl⟩
+  | @nop n F md s n' F' md' hlt hop hs _ ih =>
+    intro _ hk
     have hok := nodeOK_of_lt h hlt
-    have hp := (nodeOK_parts hok).2.2.2
-    rw [not_dead_of_holds hk, Bool.false_or, hop] at hp
+    obtain ⟨c, hc, hm, hh⟩ := hk
+    have hp := (nodeOK_parts hok).2.2.2 c hc
+    unfold caseOK at hp
+    rw [hop] at hp
     simp only [] at hp
     rw [List.all_eq_true] at hp
-    obtain ⟨a, b, c⟩ := ih (holds_impAll hk (hp s hs))
+    have hks : inv (C.k s) md F := by
+      rw [← hm]
+      exact inv_of_cover (hp s hs) (fun g' hg' => holds_imp hh hg')
+    obtain ⟨a, b', c'⟩ := ih rfl hks
     have hf := succ_fn hok hs
-    exact ⟨a, by rw [b, hf], fun hpure => c (by rw [hf]; exact hpure)⟩
-  | @libc n F s n' F' fn nm hlt hop hs _ ih =>
-    intro hk
+    exact ⟨a, by rw [b', hf], fun hpure => c' (by rw [hf]; exact hpure)⟩
+  | @libc n F md s n' F' md' fn nm hlt hop hs _ ih =>
+    intro _ hk
     have hok := nodeOK_of_lt h hlt
-    have hp := (nodeOK_parts hok).2.2.2
-    rw [not_dead_of_holds hk, Bool.false_or, hop] at hp
+    obtain ⟨c, hc, hm, hh⟩ := hk
+    have hp := (nodeOK_parts hok).2.2.2 c hc
+    unfold caseOK at hp
+    rw [hop] at hp
     simp only [Bool.and_eq_true] at hp
     have hp1 := hp.1
     rw [List.all_eq_true] at hp1
-    obtain ⟨a, b, c⟩ := ih (holds_impAll hk (hp1 s hs))
+    have hks : inv (C.k s) md F := by
+      rw [← hm]
+      exact inv_of_cover (hp1 s hs) (fun g' hg' => holds_imp hh hg')
+    obtain ⟨a, b', c'⟩ := ih rfl hks
     have hf := succ_fn hok hs
-    exact ⟨a, by rw [b, hf], fun hpure => c (by rw [hf]; exact hpure)⟩
-  | @assert n F s n' F' m hlt hop hpass hs _ ih =>
-    intro hk
+    exact ⟨a, by rw [b', hf], fun hpure => c' (by rw [hf]; exact hpure)⟩
+  | @assert n F md s n' F' md' m hlt hop hpass hs _ ih =>
+    intro _ hk
     have hok := nodeOK_of_lt h hlt
-    have hp := (nodeOK_parts hok).2.2.2
-    rw [not_dead_of_holds hk, Bool.false_or, hop] at hp
+    obtain ⟨c, hc, hm, hh⟩ := hk
+    have hp := (nodeOK_parts hok).2.2.2 c hc
+    unfold caseOK at hp
+    rw [hop] at hp
     simp only [] at hp
     rw [List.all_eq_true] at hp
-    have hs' := hp s hs
-    rw [List.all_eq_true] at hs'
-    have hks : holds (C.k s) F := by
-      intro g' hg'
-      have := hs' g' hg'
-      rw [Bool.or_eq_true] at this
-      cases this with
-      | inl hm => exact assert_gives hpass hm
-      | inr hi => exact holds_imp hk hi
-    obtain ⟨a, b, c⟩ := ih hks
+    have hks : inv (C.k s) md F := by
+      rw [← hm]
+      refine inv_of_cover (hp s hs) (fun g' hg' => ?_)
+      rw [Bool.or_eq_true] at hg'
+      cases hg' with
+      | inl hm' => exact assert_gives hpass hm'
+      | inr hi => exact holds_imp hh hi
+    obtain ⟨a, b', c'⟩ := ih rfl hks
     have hf := succ_fn hok hs
-    exact ⟨a, by rw [b, hf], fun hpure => c (by rw [hf]; exact hpure)⟩
-  | @havoc n F F1 s n' F' hlt hop _ hs _ ih =>
-    intro hk
+    exact ⟨a, by rw [b', hf], fun hpure => c' (by rw [hf]; exact hpure)⟩
+  | @modeSet n F md s n' F' md' m hlt hop hs _ ih =>
+    intro _ hk
     have hok := nodeOK_of_lt h hlt
-    have hp := (nodeOK_parts hok).2.2.2
-    rw [not_dead_of_holds hk, Bool.false_or, hop] at hp
+    obtain ⟨c, hc, _, hh⟩ := hk
+    have hp := (nodeOK_parts hok).2.2.2 c hc
+    unfold caseOK at hp
+    rw [hop] at hp
     simp only [] at hp
     rw [List.all_eq_true] at hp
-    have hemp := hp s hs
-    have hks : holds (C.k s) F1 := by
-      intro g' hg'
-      rw [List.isEmpty_iff] at hemp
-      rw [hemp] at hg'
-      cases hg'
-    obtain ⟨a, b, _⟩ := ih hks
+    have hks : inv (C.k s) m F := inv_of_cover (hp s hs) (fun g' hg' => holds_imp hh hg')
+    obtain ⟨a, b', c'⟩ := ih rfl hks
     have hf := succ_fn hok hs
-    refine ⟨a, by rw [b, hf], fun hpure => ?_⟩
+    exact ⟨a, by rw [b', hf], fun hpure => c' (by rw [hf]; exact hpure)⟩
+  | @modeOr n F md s n' F' md' m hlt hop hs _ ih =>
+    intro _ hk
+    have hok := nodeOK_of_lt h hlt
+    obtain ⟨c, hc, hm, hh⟩ := hk
+    have hp := (nodeOK_parts hok).2.2.2 c hc
+    unfold caseOK at hp
+    rw [hop] at hp
+    simp only [] at hp
+    rw [List.all_eq_true] at hp
+    have hks : inv (C.k s) (md ||| m) F := by
+      rw [← hm]
+      exact inv_of_cover (hp s hs) (fun g' hg' => holds_imp hh hg')
+    obtain ⟨a, b', c'⟩ := ih rfl hks
+    have hf := succ_fn hok hs
+    exact ⟨a, by rw [b', hf], fun hpure => c' (by rw [hf]; exact hpure)⟩
+  | @havoc n F md F1 s n' F' md' hlt hop _ hs _ _ ih2 =>
+    intro _ hk
+    have hok := nodeOK_of_lt h hlt
+    obtain ⟨c, hc, hm, _⟩ := hk
+    have hp := (nodeOK_parts hok).2.2.2 c hc
+    unfold caseOK at hp
+    rw [hop] at hp
+    simp only [] at hp
+    rw [List.all_eq_true] at hp
+    have hks : inv (C.k s) md F1 := by
+      rw [← hm]
+      exact inv_of_cover (hp s hs) (fun g' hg' => by cases hg')
+    obtain ⟨a, b', _⟩ := ih2 rfl hks
+    have hf := succ_fn hok hs
+    refine ⟨a, by rw [b', hf], fun hpure => ?_⟩
     have hpu := (nodeOK_parts hok).2.1
     rw [hpure, hop] at hpu
     simp at hpu
-  | @call n F g r F1 s n' F' hlt hop _ hrlt hret hs _ ih1 ih2 =>
-    intro hk
+  | @call n F md g r F1 mdr s n' F' md' hlt hop _ hrlt hret hs _ ih1 ih2 =>
+    intro _ hk
     have hok := nodeOK_of_lt h hlt
     have hparts := nodeOK_parts hok
-    have hp := hparts.2.2.2
-    rw [not_dead_of_holds hk, Bool.false_or, hop] at hp
+    obtain ⟨c, hc, hm, hh⟩ := hk
+    have hp := hparts.2.2.2 c hc
+    unfold caseOK at hp
+    rw [hop] at hp
     simp only [Bool.and_eq_true] at hp
     obtain ⟨⟨hpre, hentry⟩, hsucc⟩ := hp
-    have hkpre := holds_impAll hk hpre
-    have hkent := holds_impAll hkpre hentry
-    obtain ⟨hkr, hfr, hpr⟩ := ih1 hkent
-    -- at the return node
-    have hokr : nodeOK need G C r = true := nodeOK_of_lt h hrlt
-    have hpr2 := (nodeOK_parts hokr).2.2.2
-    rw [not_dead_of_holds hkr, Bool.false_or, hret] at hpr2
-    simp only [] at hpr2
+    have hkpre := holds_impAll hh hpre
+    have hkent : inv (C.k (G.fnEntry g)) 0 F := inv_of_cover hentry (fun g' hg' => holds_imp hkpre hg')
+    obtain ⟨hkr, hfr, hpr⟩ := ih1 rfl hkent
     have hfg : (G.node (G.fnEntry g)).fn = g := by
       have := hparts.2.2.1
       rw [hop] at this
       exact beq_iff_eq.mp this
+    -- at the return node
+    have hokr : nodeOK need G C r = true := nodeOK_of_lt h hrlt
+    obtain ⟨cr, hcr, _, hhr⟩ := hkr
+    have hpr2 := (nodeOK_parts hokr).2.2.2 cr hcr
+    unfold caseOK at hpr2
+    rw [hret] at hpr2
+    simp only [] at hpr2
     rw [hfr, hfg] at hpr2
-    have hkpost := holds_impAll hkr hpr2
+    have hkpost := holds_impAll hhr hpr2
     rw [List.all_eq_true] at hsucc
-    have hs' := hsucc s hs
-    rw [List.all_eq_true] at hs'
-    have hks : holds (C.k s) F1 := by
-      intro g' hg'
-      have := hs' g' hg'
-      rw [Bool.or_eq_true] at this
-      cases this with
-      | inl hm =>
-        rw [Bool.and_eq_true] at hm
-        have hF : F1 = F := hpr (by rw [hfg]; exact hm.1)
+    have hks : inv (C.k s) md F1 := by
+      rw [← hm]
+      refine inv_of_cover (hsucc s hs) (fun g' hg' => ?_)
+      rw [Bool.or_eq_true] at hg'
+      cases hg' with
+      | inl hm' =>
+        rw [Bool.and_eq_true] at hm'
+        have hF : F1 = F := hpr (by rw [hfg]; exact hm'.1)
         rw [hF]
-        exact holds_imp hk hm.2
+        exact holds_imp hh hm'.2
       | inr hi => exact holds_imp hkpost hi
-    obtain ⟨a, b, c⟩ := ih2 hks
+    obtain ⟨a, b', c'⟩ := ih2 rfl hks
     have hf := succ_fn hok hs
-    refine ⟨a, by rw [b, hf], fun hpure => ?_⟩
+    refine ⟨a, by rw [b', hf], fun hpure => ?_⟩
     have hpu := hparts.2.1
     rw [hpure, hop] at hpu
     simp only [Bool.not_true, Bool.false_or] at hpu
     have hF1 : F1 = F := hpr (by rw [hfg]; exact hpu)
-    rw [c (by rw [hf]; exact hpure), hF1]
+    rw [c' (by rw [hf]; exact hpure), hF1]
+  | idone F => intro hb; cases hb
+  | igrow _ _ _ => intro hb; cases hb
+  | ienter _ _ _ _ _ => intro hb; cases hb
 
-theorem obs_inv (h : certOK need G C = true) {n F c F' : Nat} (ho : Obs G n F c F') :
-    holds (C.k n) F → holds (C.k c) F' := by
+theorem entry_inv (h : certOK need G C = true) {f : Nat} (hf : f ∈ G.entries) (F : Nat) : inv (C.k (G.fnEntry f)) 0 F := by
+  unfold certOK at h
+  rw [Bool.and_eq_true] at h
+  have := h.2
+  rw [List.all_eq_true] at this
+  exact inv_of_cover (this f hf) (fun g' hg' => by cases hg')
+
+/-- Whatever is observed - in the activation, in callees, or in entry points re-entered through the interpreter - is
+    described by the certificate.  For an interpreter run (`b = true`) nothing has to be assumed. -/
+theorem ob_inv (h : certOK need G C = true) {b : Bool} {n F md c F' md' : Nat} (ho : Ob G b n F md c F' md') :
+    (b = false → inv (C.k n) md F) → inv (C.k c) md' F' := by
   induction ho with
-  | here hr => intro hk; exact (reach_inv h hr hk).1
-  | @inside n F n1 F1 g c F' hr hlt1 hop _ ih =>
+  | here hr => intro hk; exact (ex_inv h hr rfl (hk rfl)).1
+  | @inCall n F md n1 F1 md1 g c F' md' hr hlt1 hop _ ih =>
     intro hk
-    have hk1 := (reach_inv h hr hk).1
+    obtain ⟨c1, hc1, _, hh1⟩ := (ex_inv h hr rfl (hk rfl)).1
     have hok : nodeOK need G C n1 = true := nodeOK_of_lt h hlt1
-    have hp := (nodeOK_parts hok).2.2.2
-    rw [not_dead_of_holds hk1, Bool.false_or, hop] at hp
+    have hp := (nodeOK_parts hok).2.2.2 c1 hc1
+    unfold caseOK at hp
+    rw [hop] at hp
     simp only [Bool.and_eq_true] at hp
-    exact ih (holds_impAll (holds_impAll hk1 hp.1.1) hp.1.2)
+    have hkpre := holds_impAll hh1 hp.1.1
+    exact ih (fun _ => inv_of_cover hp.1.2 (fun g' hg' => holds_imp hkpre hg'))
+  | inHavoc _ _ _ _ ih => intro _; exact ih (fun hb => by cases hb)
+  | iskipGrow _ _ ih => intro _; exact ih (fun hb => by cases hb)
+  | iskipEnter _ _ _ ih => intro _; exact ih (fun hb => by cases hb)
+  | @iin F f c F' md' hf _ ih => intro _; exact ih (fun _ => entry_inv h hf F)
 
-/-- ★ Soundness, for every graph and certificate: an OS-level call reached from an entry point is reached with a flag
-    word in which none of its requirement groups is completely disabled. -/
-theorem checker_sound (need : String → String → List Nat) (G : Graph) (C : Cert) (h : certOK need G C = true)
-    (f : Nat) (hf : f ∈ G.entries) (F0 c F : Nat) (fn nm : String)
-    (hobs : Obs G (G.fnEntry f) F0 c F) (hlt : c < G.size) (hc : (G.node c).op = .libc fn nm)
-    (R : Nat) (hR : R ∈ need fn nm) : subMask R F = false := by
-  have hent : (C.k (G.fnEntry f)) = [] := by
-    unfold certOK at h
-    rw [Bool.and_eq_true] at h
-    have := h.2
-    rw [List.all_eq_true] at this
-    exact List.isEmpty_iff.mp (this f hf)
-  have hk0 : holds (C.k (G.fnEntry f)) F0 := by rw [hent]; exact holds_nil F0
-  have hkc := obs_inv h hobs hk0
+/-- requirement at an observed OS-level call -/
+theorem need_at (h : certOK need G C = true) {c md F : Nat} {fn nm : String} (hk : inv (C.k c) md F) (hlt : c < G.size)
+    (hc : (G.node c).op = .libc fn nm) (R : Nat) (hR : R ∈ need fn nm md) : subMask R F = false := by
+  obtain ⟨cs, hcs, hm, hh⟩ := hk
   have hok : nodeOK need G C c = true := nodeOK_of_lt h hlt
-  have hp := (nodeOK_parts hok).2.2.2
-  rw [not_dead_of_holds hkc, Bool.false_or, hc] at hp
+  have hp := (nodeOK_parts hok).2.2.2 cs hcs
+  unfold caseOK at hp
+  rw [hc] at hp
   simp only [Bool.and_eq_true] at hp
   have hneed := hp.2
-  rw [List.all_eq_true] at hneed
-  exact holds_imp hkc (hneed R hR)
+  rw [List.all_eq_true, hm] at hneed
+  exact holds_imp hh (hneed R hR)
+
+/-- ★ Soundness lifted through re-entrant calls, for every graph and certificate: let the interpreter run ANY sequence of
+    entry-point calls and `(sandbox …)` calls under one thread-global flag word, entry points re-entering the interpreter at
+    their indirect calls to any depth.  Every OS-level call `c` that is reached is reached with a flag word in which none
+    of its requirement groups (for the access mode in force at the call) is completely disabled. -/
+theorem interp_sound (need : String → String → Nat → List Nat) (G : Graph) (C : Cert) (h : certOK need G C = true)
+    (F0 c F md : Nat) (fn nm : String) (hobs : Ob G true 0 F0 0 c F md) (hlt : c < G.size)
+    (hc : (G.node c).op = .libc fn nm) (R : Nat) (hR : R ∈ need fn nm md) : subMask R F = false :=
+  need_at h (ob_inv h hobs (fun hb => by cases hb)) hlt hc R hR
+
+/-- ★ Same, for one call of one entry point (a special case of `interp_sound`). -/
+theorem checker_sound (need : String → String → Nat → List Nat) (G : Graph) (C : Cert) (h : certOK need G C = true)
+    (f : Nat) (hf : f ∈ G.entries) (F0 c F md : Nat) (fn nm : String)
+    (hobs : Ob G false (G.fnEntry f) F0 0 c F md) (hlt : c < G.size) (hc : (G.node c).op = .libc fn nm)
+    (R : Nat) (hR : R ∈ need fn nm md) : subMask R F = false :=
+  interp_sound need G C h F0 c F md fn nm (.iin hf hobs) hlt hc R hR
 
 end sound
 
 /-! ### executions never clear a bit either (semantics only, no certificate) -/
 
-theorem reach_mono {G : Graph} {n F n' F' : Nat} (hr : Reach G n F n' F') : subMask F F' = true := by
+theorem ex_mono {G : Graph} {b : Bool} {n F md n' F' md' : Nat} (hr : Ex G b n F md n' F' md') : subMask F F' = true := by
   induction hr with
-  | refl n F => exact subMask_refl F
+  | refl n F md => exact subMask_refl F
   | nop _ _ _ _ ih => exact ih
   | libc _ _ _ _ ih => exact ih
   | assert _ _ _ _ _ ih => exact ih
-  | havoc _ _ hg _ _ ih => exact subMask_trans hg ih
+  | modeSet _ _ _ _ ih => exact ih
+  | modeOr _ _ _ _ ih => exact ih
+  | havoc _ _ _ _ _ ih1 ih2 => exact subMask_trans ih1 ih2
   | call _ _ _ _ _ _ _ ih1 ih2 => exact subMask_trans ih1 ih2
+  | idone F => exact subMask_refl F
+  | igrow hg _ ih => exact subMask_trans hg ih
+  | ienter _ _ _ ih1 ih2 => exact subMask_trans ih1 ih2
 
-theorem obs_mono {G : Graph} {n F c F' : Nat} (ho : Obs G n F c F') : subMask F F' = true := by
+theorem ob_mono {G : Graph} {b : Bool} {n F md c F' md' : Nat} (ho : Ob G b n F md c F' md') : subMask F F' = true := by
   induction ho with
-  | here hr => exact reach_mono hr
-  | inside hr _ _ _ ih => exact subMask_trans (reach_mono hr) ih
+  | here hr => exact ex_mono hr
+  | inCall hr _ _ _ ih => exact subMask_trans (ex_mono hr) ih
+  | inHavoc hr _ _ _ ih => exact subMask_trans (ex_mono hr) ih
+  | iskipGrow hg _ ih => exact subMask_trans hg ih
+  | iskipEnter _ hr _ ih => exact subMask_trans (ex_mono hr) ih
+  | iin _ _ ih => exact ih
 
-/-- ★ In terms of the flag word at the moment the core function is entered: if a requirement group of `c` is
-    completely disabled then, no execution from that entry point reaches `c` (every path ends in a sandbox panic, or
-    never gets there). -/
-theorem checker_sound_entry (need : String → String → List Nat) (G : Graph) (C : Cert) (h : certOK need G C = true)
-    (f : Nat) (hf : f ∈ G.entries) (F0 c F : Nat) (fn nm : String) (hlt : c < G.size) (hc : (G.node c).op = .libc fn nm)
-    (R : Nat) (hR : R ∈ need fn nm) (hdis : subMask R F0 = true) : ¬ Obs G (G.fnEntry f) F0 c F := by
+/-- ★ In terms of the flag word at the moment the interpreter run (or the core function) starts: if a requirement group of
+    `c` is completely disabled then, no execution reaches `c` (every path ends in a sandbox panic, or never gets there). -/
+theorem checker_sound_entry (need : String → String → Nat → List Nat) (G : Graph) (C : Cert) (h : certOK need G C = true)
+    (F0 c F md : Nat) (fn nm : String) (hlt : c < G.size) (hc : (G.node c).op = .libc fn nm)
+    (R : Nat) (hR : R ∈ need fn nm md) (hdis : subMask R F0 = true) : ¬ Ob G true 0 F0 0 c F md := by
   intro hobs
-  have h1 := checker_sound need G C h f hf F0 c F fn nm hobs hlt hc R hR
-  have h2 := subMask_trans hdis (obs_mono hobs)
+  have h1 := interp_sound need G C h F0 c F md fn nm hobs hlt hc R hR
+  have h2 := subMask_trans hdis (ob_mono hobs)
   rw [h1] at h2
   cases h2
 
@@ -389,16 +475,25 @@ theorem checker_sound_entry (need : String → String → List Nat) (G : Graph) 
 def exNodes : Array Node := #[⟨0, .assert 32, [1]⟩, ⟨0, .call 1, [2]⟩, ⟨0, .ret, []⟩,
                       ⟨1, .libc "f1" "remove", [4]⟩, ⟨1, .ret, []⟩]
 def exG : Graph := ⟨5, fun n => exNodes.getD n ⟨0, .nop, []⟩, fun f => #[0, 3].getD f 0, [0]⟩
-def exC : Cert := ⟨fun n => #[[], [32], [32], [32], [32]].getD n [], fun f => #[[], [32]].getD f [], fun f => #[[32], [32]].getD f [],
-  fun _ => true⟩
+def exC : Cert := ⟨fun n => #[[(0, [])], [(0, [32])], [(0, [32])], [(0, [32])], [(0, [32])]].getD n [], fun f => #[[], [32]].getD f [],
+  fun f => #[[32], [32]].getD f [], fun _ => true⟩
 example : certOK need exG exC = true := by decide
-/-- the call is really reachable when fs-write is enabled (flag word 64 = only fs-read disabled) -/
-example : Obs exG 0 64 3 64 :=
-  .inside (.assert (n := 0) (s := 1) (by decide) rfl (by decide) (by decide) (.refl 1 64)) (g := 1) (by decide) rfl (.here (.refl 3 64))
+/-- the call is really reachable when fs-write is enabled (flag word 64 = only fs-read disabled), through the interpreter -/
+example : Ob exG true 0 64 0 3 64 0 :=
+  .iin (f := 0) (by decide)
+    (.inCall (.assert (n := 0) (s := 1) (by decide) rfl (by decide) (by decide) (.refl 1 64 0)) (g := 1) (by decide) rfl
+      (.here (.refl 3 64 0)))
 /-- without the assert the checker rejects: the shape of `os/rm` on the pinned tree -/
 example : certOK need ⟨2, fun n => #[⟨0, .libc "os_remove" "remove", [1]⟩, ⟨0, .ret, []⟩].getD n ⟨0, .nop, []⟩, fun _ => 0, [0]⟩
-    ⟨fun _ => [], fun _ => [], fun _ => [], fun _ => true⟩ = false := by
+    ⟨fun _ => [(0, [])], fun _ => [], fun _ => [], fun _ => true⟩ = false := by
   decide
+/-- the shape of the `os/open :a` escape: the read-write open is reached with no assert; a certificate that tracks the mode
+    cannot be accepted, while the fixed shape (assert fs-read|fs-write on that branch) is -/
+example : certOK need ⟨3, fun n => #[⟨0, .modeOr 2, [1]⟩, ⟨0, .libc "os_open" "open64", [2]⟩, ⟨0, .ret, []⟩].getD n ⟨0, .nop, []⟩, fun _ => 0, [0]⟩
+    ⟨fun n => #[[(0, [])], [(2, [])], [(2, [])]].getD n [], fun _ => [], fun _ => [], fun _ => true⟩ = false := by decide
+example : certOK need ⟨4, fun n => #[⟨0, .assert 96, [1]⟩, ⟨0, .modeOr 2, [2]⟩, ⟨0, .libc "os_open" "open64", [3]⟩, ⟨0, .ret, []⟩].getD n ⟨0, .nop, []⟩,
+      fun _ => 0, [0]⟩
+    ⟨fun n => #[[(0, [])], [(0, [32, 64])], [(2, [32, 64])], [(2, [32, 64])]].getD n [], fun _ => [], fun _ => [], fun _ => true⟩ = true := by decide
 example : sandboxOp 0 96 = some 96 ∧ sandboxOp 1 96 = none := by decide
 
 /-! ### per-run obligations on the regenerated graph -/
@@ -416,9 +511,9 @@ theorem gen_tables : definesOK defines capTable = true ∧ tableEq options keywo
 
 open JanetModel.Gen.Sandbox in
 /-- the instance of `checker_sound_entry` for the program as it is now -/
-theorem sandbox_enforced (f : Nat) (hf : f ∈ graph.entries) (F0 c F : Nat) (fn nm : String)
-    (hlt : c < graph.size) (hc : (graph.node c).op = .libc fn nm) (R : Nat) (hR : R ∈ need fn nm) (hdis : subMask R F0 = true) :
-    ¬ Obs graph (graph.fnEntry f) F0 c F :=
-  checker_sound_entry need graph cert gen_certOK f hf F0 c F fn nm hlt hc R hR hdis
+theorem sandbox_enforced (F0 c F md : Nat) (fn nm : String)
+    (hlt : c < graph.size) (hc : (graph.node c).op = .libc fn nm) (R : Nat) (hR : R ∈ need fn nm md) (hdis : subMask R F0 = true) :
+    ¬ Ob graph true 0 F0 0 c F md :=
+  checker_sound_entry need graph cert gen_certOK F0 c F md fn nm hlt hc R hR hdis
 
 end JanetModel.Props.C18
